@@ -130,15 +130,15 @@ CHECKS = {
         note=TRUST_W, engine="W"),
     "C11": dict(
         category="exploration",
-        text="(magnitude, type) pairs over primes up to 2^64-59, the bounded rational exponent set, pi, integers max-1 / max / max+1 of every "
+        text="Decided for every base and exponent (inferred inductive loop invariant + relational obligations over the IR): checked_int_pow in the two integral types get_value evaluates in never wraps, overflows or divides by zero.  Explored: (magnitude, type) pairs over primes up to 2^64-59, the bounded rational exponent set, pi, integers max-1 / max / max+1 of every "
              "integral type and the floating limits (2^emax, smallest normal / denormal, below the denormals, powers of ten around the FLT/DBL "
              "limits) x 8 integral + 3 floating types: representable_in, get_value_result's outcome and value are extracted from clang's constant "
              "evaluator and compared with exact integer and 400-bit real arithmetic (integral: exact; floating: strictly positive and within 4 ulp, "
              "wider tolerance stated for long double); accepted values are re-asserted on g++, refused ones are compile-fail witnesses for "
              "get_value; is_integer, is_rational, numerator, denominator, integer_part, canonical exponents and equality are asserted per "
              "magnitude.  These functions are only ever used in constant expressions, so the constant evaluator's answer is their behaviour.",
-        design_ref="3.11", technique="constant extraction from clang IR initialisers + compile-fail witnesses against exact big-number arithmetic",
-        note=TRUST_W, engine="W"),
+        design_ref="3.11", technique="constant extraction from clang IR initialisers + compile-fail witnesses against exact big-number arithmetic; loop-invariant inference (Houdini over template candidates) with relational obligations for checked_int_pow",
+        note=TRUST_W + "; " + TRUST_I, engine="W+I"),
     "C12": dict(
         category="exploration",
         text="PARTIAL.  Decided for every 64-bit operand (proof, relational analysis with path partitioning over the IR of the "
